@@ -743,7 +743,7 @@ P_C20(c) == \A i \in 1..Len(c.runs) : ColourOK(c, c.runs[i])
 
 (* ---- C18: display:none hides exactly the matched subtrees --------------------------------------------- *)
 \* runs 1, 2: the document with its sheets (use_doc_css) and the same document with the hidden subtrees
-\* deleted by the generator; runs 3, 4 (optional): use_doc_css off, the document and StripStyle(d)
+\* deleted by the generator; runs 3, 4 (optional): use_doc_css off, the document and StripStyle(d); run 5 below
 DelMark(n) == FALSE
 RECURSIVE MergeText(_)
 MergeText(ns) ==
@@ -762,6 +762,9 @@ P_C18(c) ==
   /\ C18Sane(c)
   /\ SameResult(c.runs[1], c.runs[2])
   /\ Len(c.runs) >= 4 => SameResult(c.runs[3], c.runs[4])
+  \* run 5 (optional): the document without its hidden subtrees, use_doc_css off - the sheets of that document
+  \* select nothing that is left, so this is "as if the hidden subtrees had been deleted" without any CSS at work
+  /\ Len(c.runs) >= 5 => SameResult(c.runs[1], c.runs[5])
 
 (* ---- C17: CSS never breaks rendering; insignificant CSS syntax does not matter ------------------------ *)
 \* meta.kind = "total": any string to add_css / add_agent_css: Ok or CssParseError (P_C01)
